@@ -117,8 +117,14 @@ def check(ctx):
     R2 = ctx.rule("R2", "CSR dNSName list = identifiers with id_type Dns, iPAddress list = identifiers with id_type Ip, each entry's `value`")
     cs = b.calls_to(CSR)
     ctx.floor(R2, "Csr::new call in request_certificate", len(cs), 1)
+    # evaluation-first: request_certificate interpreted along its success path with five configured identifiers of both types
+    # (props/request_model.py): which names reach Csr::new, in which list and order, and which key signs it
+    from .request_model import key_rule, names_rule, request_traces
+    rtr = request_traces(prog)
+    if rtr is not None:
+        names_rule(ctx, R2, rtr)
     passes = {}
-    for c in cs:
+    for c in (cs if rtr is None else []):
         for pos, want, pname in ((2, "Dns", "domains"), (3, "Ip", "ips")):
             sl = arg_origins(c, pos)
             ctx.require(R2, (CERT, "identifiers") in sl.fields and sl.has_leaf("upvar:0"), c.where(), "Csr::new `%s` derives from cert.identifiers" % pname, [RC, "csr-source", pname])
@@ -162,11 +168,24 @@ def check(ctx):
                 vs = arg_origins(x, 1)
                 idf = {f for a, f in vs.fields if a == IDENT}
                 ctx.require(R2, idf == {"value"}, x.where(), "`%s` entries are the identifiers' `value` (%s)" % (pname, sorted(idf)), [RC, "csr-projection", pname])
-    for v in prog.adt_variants(IDT):
+    for v in (prog.adt_variants(IDT) if rtr is None else []):
         ctx.require(R2, len(passes.get(v, [])) == 1, "acmed/src/acme_proto.rs", "every identifier type reaches exactly one CSR list (%s -> %s)" % (v, passes.get(v)), [RC, "csr-partition", v])
 
     R3 = ctx.rule("R3", "the CSR key is get_key_pair's key, the same value that is matched against the certificate and stored when new")
     from .c03 import GKP, HPK, STORE
+    if rtr is not None:
+        key_rule(ctx, R3, rtr)
+        new_key_flag_rule(ctx, R3)
+        # a fresh key has the configured type — wherever it is generated on request_certificate's paths
+        kt_ok = False
+        for kb in [prog.body(k) for k in sorted(prog.reach([RC, RC + "::{closure#0}"])) if k.startswith("acmed::acme_proto")]:
+            if kb is None or prog.absorbed(kb.key):
+                continue
+            for c in prog.body(kb.key).calls_to("acme_common::crypto::openssl_keys::gen_keypair"):
+                kt_ok = True
+                ctx.require(R3, (CERT, "key_type") in arg_origins(c, 0).fields, c.where(), "a new key has the configured key_type", [kb.key.split("::{closure")[0], "key-type"])
+        ctx.require(R3, kt_ok, "%s:%s" % (b.file, b.line), "gen_keypair call found on request_certificate's paths", [RC, "key-type-site"])
+        return r4_and_rest(ctx, b)
     for c in cs:
         sl = arg_origins(c, 0)
         srcs = [x for x in sl.calls if x.is_or_polls(GKP)]
@@ -193,6 +212,11 @@ def check(ctx):
         good, hit = unreachable_without(gk, [c.bb], removed_edges=edges)
         ctx.require(R3, bool(edges) and good, c.where(), "the stored key is re-read only when kp_reuse is set", [GKP, "reuse-gate"])
 
+    return r4_and_rest(ctx, b)
+
+
+def r4_and_rest(ctx, b):
+    prog = ctx.prog
     R4 = ctx.rule("R4", "identifiers are normalised at load: Identifier::new is the only constructor; value = to_idna(v) for Dns, IpAddr::from_str(v).to_string() for Ip")
     lits = []
     for body in prog.user_bodies(("acmed",)):
